@@ -856,6 +856,8 @@ def std_model(I, p, fr, t, args):
         return Iter([Adt(None, None, {"0": i, "1": x}) for i, x in enumerate(d0.items[d0.pos:])])
     if n in ("take",) and isinstance(d0, Iter) and d0.items is not None and isinstance(args[1], int):
         return Iter(d0.items[d0.pos:d0.pos + args[1]])
+    if n in ("skip",) and isinstance(d0, Iter) and d0.items is not None and isinstance(args[1], int):
+        return Iter(d0.items[d0.pos + args[1]:])
     if n == "next" and isinstance(d0, Iter):
         if d0.items is not None:
             if d0.pos < len(d0.items):
